@@ -14,8 +14,13 @@ _ENGINE_ASSUME = ['background flush is observed only at quiescence (concurrency:
                   'keys are non-empty; batch entries fit one log record',
                   'correspondence Kevo.Model.Engine ~ pkg/engine is sampled (differential), not proved']
 
-reg(Prop('C01', 'Kevo.Props.C01', facts=['facts:storage.*'], components=[ENGINE], fact_tags=['storage', 'memtable'],
-         rule=_ENGINE_RULE, assumptions=_ENGINE_ASSUME))
+from oracledefs import compaction as _cx
+COMPACTION_C01 = Comp('compaction', n_quick=200, n_thorough=6000, oracle=_cx.compaction_oracle, nontrivial=_cx.compaction_nontrivial,
+                      stats=_cx.compaction_stats, chunk_min=12, timeout=900)
+reg(Prop('C01', 'Kevo.Props.C01', facts=['facts:storage.*'], components=[ENGINE, COMPACTION_C01], fact_tags=['storage', 'memtable'],
+         rule=_ENGINE_RULE + ' Plus component compaction (see C12): the same abstract-map oracle on workloads with TriggerCompaction, CompactRange, '
+              'retirement of flushed log files and reopen, so that reads are answered by SSTables alone (the two architectural compaction '
+              'findings of C12 violate C01 as well and are listed for C01 too).', assumptions=_ENGINE_ASSUME))
 from propdefs.c02_c03 import CRASH
 reg(Prop('C08', 'Kevo.Props.C08', facts=['facts:storage.*', 'facts:wal.AppendBatch.nextSequence'], components=[ENGINE, CRASH], fact_tags=['storage', 'memtable', 'wal'],
          rule=_ENGINE_RULE + ' Plus component crash: after a kill at every instrumentation site the recovered last sequence must be the number of the '
